@@ -400,7 +400,26 @@ func (g *gctx) buildLimits() *spend {
 		if ctx == "p2wsh" {
 			ctx = "bare"
 		}
-		prog = rep([]byte{refscript.OP_1}, n-alt)
+		// the element is pushed by OP_1 or by one of the data-push encodings (the limit applies after every opcode,
+		// pushes included)
+		el := [][]byte{{refscript.OP_1}, {0x01, 0x07}, {refscript.OP_PUSHDATA1, 0x01, 0x07}, {refscript.OP_PUSHDATA2, 0x01, 0x00, 0x07}, {refscript.OP_1NEGATE}, {refscript.OP_1}}[r.Intn(6)]
+		if len(el) > 1 || el[0] != refscript.OP_1 {
+			name = fmt.Sprintf("stack-size/%d+alt/push-%02x", n, el[0])
+		}
+		if alt == 0 && r.Chance(1, 3) {
+			// the pushes arrive on the initial stack (scriptSig / witness), the program only drops one or none
+			name = fmt.Sprintf("stack-size/%d-initial", n)
+			for i := 0; i < n; i++ {
+				init = append(init, []byte{0x07})
+			}
+			if ctx == "bare" && r.Bool() {
+				prog = []byte{refscript.OP_DROP}
+			} else {
+				prog = []byte{refscript.OP_NOP}
+			}
+			break
+		}
+		prog = rep(el, n-alt)
 		for i := 0; i < alt; i++ {
 			prog = append(prog, refscript.OP_1, refscript.OP_TOALTSTACK)
 		}
